@@ -57,13 +57,17 @@ fn fnv64(b: &[u8]) -> u64 {
     h
 }
 
-/// canonical byte-string printer: `-` when empty, hex up to 600 bytes, `#len:fnv64` above.
+/// canonical byte-string printer: `-` when empty, hex up to 600 bytes, `#len:first 32 bytes:fnv64` above.
 fn hexs(b: &[u8]) -> String {
     if b.is_empty() {
         return "-".to_string();
     }
     if b.len() > 600 {
-        return format!("#{}:{:016x}", b.len(), fnv64(b));
+        let mut head = String::with_capacity(64);
+        for x in &b[..32] {
+            write!(head, "{:02x}", x).unwrap();
+        }
+        return format!("#{}:{}:{:016x}", b.len(), head, fnv64(b));
     }
     let mut s = String::with_capacity(b.len() * 2);
     for x in b {
